@@ -1118,15 +1118,37 @@ def rand_events(rng, w_unused=None):
                 evs.append((END, tags.pop(), pos))
             else:
                 evs.append((END, QName('b'), pos))
-        elif q < 0.96:
+        elif q < 0.94:
             evs.append((COMMENT, 'c', pos))
         else:
+            # directive-carrying sub-streams, also nested in each other (TypeError branch of
+            # MessageBuffer.translate: measured in 0.1 % of the cases before)
             inner = rand_events(rng)
             evs.append((SUB, ([StripDirective('', None)], inner), pos))
     if rng.random() < 0.7:
         while tags:
             evs.append((END, tags.pop(), pos))
     return evs
+
+
+def nested_sub_events(rng):
+    """directive-carrying elements inside each other (finding C19-nested-directives: the TypeError
+    branch of MessageBuffer.translate, hit by 0.1 % of `rand_events`)"""
+    from genshi.core import START, END, TEXT, QName, Attrs
+    from genshi.template.base import SUB
+    from genshi.template.directives import StripDirective
+    pos = (None, 1, 0)
+
+    def el(tag, kids):
+        return [(START, (QName(tag), Attrs()), pos)] + kids + [(END, QName(tag), pos)]
+
+    def sub(kids):
+        return [(SUB, ([StripDirective('', None)], kids), pos)]
+    t = lambda: [(TEXT, rng.choice(['a', 'x ', ' y', '12']), pos)] if rng.random() < 0.8 else []
+    inner = sub(el('i', t()))
+    if rng.random() < 0.3:
+        inner = el('em', t() + inner + t())
+    return t() + sub(el('b', t() + inner + t())) + t()
 
 
 def rand_translation(rng, fmt):
@@ -1164,7 +1186,7 @@ def buffer_lines(rng, n):
     out = []
     for _ in range(n):
         params = rng.choice([[], ['p1'], ['p1', 'p2'], ['p1', 'p2', 'q']])
-        evs = rand_events(rng)
+        evs = nested_sub_events(rng) if rng.random() < 0.04 else rand_events(rng)
         w = Wire()
         wired = w.stream(evs)
         fmt = None
@@ -1547,7 +1569,7 @@ def shard(arg):
         except Exception as e:  # noqa
             res.disagreements.append({'stream': 'harness', 'case': c, 'model': '', 'real': 'corr_lines raised %s: %s' % (type(e).__name__, e)})
     triples.extend(buffer_lines(rng, 3 * n))
-    triples.extend(pycode_lines(random.Random('%s/%s/C19/pycode' % (seed, idx)), 2 * n, res))
+    triples.extend(pycode_lines(random.Random('%s/%s/C19/pycode' % (seed, idx)), n, res))
     compare(triples, res)
     res.samples = cases[:2]
     return res
